@@ -26,11 +26,15 @@ def run_property(prop, tier, seed, make_cases, bounds, assumptions, confirm=None
         for c in make_cases(tier, p):
             c = dict(c); c['profile'] = p
             split = c.pop('split', None)
+            p0 = c.pop('partial0', None) or {}
+            if p0:
+                c['partial'] = dict(p0)
+                split = [v for v in (split or []) if v not in p0]
             if split:
                 # partition the world on these variables: sub-cases run in parallel, together they cover every value
                 import itertools
                 for vals in itertools.product([False, True], repeat=len(split)):
-                    d = dict(c); d['partial'] = dict(zip(split, vals))
+                    d = dict(c); d['partial'] = dict(p0); d['partial'].update(zip(split, vals))
                     d['name'] = c.get('name', str(c.get('line'))) + ' [' + ''.join('1' if v else '0' for v in vals) + ']'
                     cases.append(d)
             else:
